@@ -67,6 +67,7 @@ def run(chk):
     chk.section('center_volume', center_volume, mod)
     chk.section('quadrature', quadrature, mod)
     tables(chk)
+    chk.section('absorption.base: transmission map', transmission_map, None)
     transmission_lemmas(chk)
     bounded_transmission(chk)
 
@@ -210,12 +211,36 @@ def slab(chk, mod):
 
 
 # ---- Cylinder.beam_intersection against the callee contracts --------------------------------------------------------
+EACH_OWN_UNIT = [False]      # radius, height and base each in their own length unit (second run of the geometric contracts)
+
+
 def make_cyl(mod, axis=None):
+    if EACH_OWN_UNIT[0]:
+        return mod.Cylinder(symmetry_line=axis or vec1('ax'), center_of_base=arg('base', 'length', dtype=VEC, unit=symbolic_unit('k_B', NAMED['m'])),
+                            radius=scal('rad', unit=symbolic_unit('k_R', NAMED['m']), kind='pos'), height=scal('hgt', unit=symbolic_unit('k_H', NAMED['m']), kind='pos'))
     return mod.Cylinder(symmetry_line=axis or vec1('ax'), center_of_base=vecL('base'), radius=scal('rad', kind='pos'), height=scal('hgt', kind='pos'))
+
+
+def in_each_unit(fn):
+    """run a geometric contract a second time with radius, height and base in three independent length units"""
+    def run2(chk, mod):
+        fn(chk, mod, '')
+        EACH_OWN_UNIT[0] = True
+        try:
+            fn(chk, mod, '[radius, height, base each in their own unit]')
+        finally:
+            EACH_OWN_UNIT[0] = False
+    return run2
 
 
 def beam_intersection(chk, mod):
     chk.function(MOD, 'Cylinder.beam_intersection')
+    # radius, height, base and the start of the ray may each come in their own length unit ("in any length unit")
+    _beam_intersection(chk, mod, '')
+    _beam_intersection(chk, mod, 'radius, height, base, start each in their own unit; ')
+
+
+def _beam_intersection(chk, mod, tag):
     pre = f'{MOD}:Cylinder.beam_intersection'
     calls = {}
 
@@ -249,7 +274,12 @@ def beam_intersection(chk, mod):
     saved = (mod._line_infinite_cylinder_intersection, mod._line_slab_intersection, mod._positive_interval_intersection)
     mod._line_infinite_cylinder_intersection, mod._line_slab_intersection, mod._positive_interval_intersection = cyl_stub, slab_stub, posint_stub
     try:
-        mk = lambda: (make_cyl(mod), vecL('start'), vec1('dir'))
+        if tag:
+            mk = lambda: (mod.Cylinder(symmetry_line=vec1('ax'), center_of_base=arg('base', 'length', dtype=VEC, unit=symbolic_unit('k_B', NAMED['m'])),
+                                       radius=scal('rad', unit=symbolic_unit('k_R', NAMED['m']), kind='pos'), height=scal('hgt', unit=symbolic_unit('k_H', NAMED['m']), kind='pos')),
+                          vecL('start'), vec1('dir'))
+        else:
+            mk = lambda: (make_cyl(mod), vecL('start'), vec1('dir'))
         # a direction cannot be parallel to the axis and perpendicular to it at the same time (|dir| = |axis| = 1)
         base = [z3.Not(z3.And(z3.Bool('PAR_C'), z3.Bool('PAR_S')))]
         paths = chk.explore(lambda: mk()[0].beam_intersection(mk()[1], mk()[2]), base=base, catch=CATCH + (core.Unsupported,))
@@ -258,25 +288,26 @@ def beam_intersection(chk, mod):
     cyl, start, dirn = mk()
     for i, p in enumerate(paths):
         ok = p.kind == 'return'
-        chk.decided(f'{pre}/no-raise[path{i}]', ok, detail=repr(p.value)[:200])
+        chk.decided(f'{pre}/no-raise[{tag}path{i}]', ok, detail=repr(p.value)[:200])
         if not ok:
             continue
         hy = hyps_of(p, base)
         (ca, cb, cr, cn), (sa, sb_, sh, sn) = calls['cyl'], calls['slab']
-        bp = [cyl.center_of_base.val[j] - start.val[j] for j in range(3)]
-        chk.prove(f'{pre}/callee-args:axis,base-start,radius,height,direction[path{i}]', hy, z3.And(
+        bp = [cyl.center_of_base.si[j] - start.si[j] for j in range(3)]
+        chk.prove(f'{pre}/callee-args:axis,base-start,radius,height,direction[{tag}path{i}]', hy, z3.And(
             *[ca.val[j] == cyl.symmetry_line.val[j] for j in range(3)], *[sa.val[j] == cyl.symmetry_line.val[j] for j in range(3)],
-            *[cb.val[j] == bp[j] for j in range(3)], *[sb_.val[j] == bp[j] for j in range(3)],
-            cr.val == cyl.radius.val, sh.val == cyl.height.val,
+            *[cb.si[j] == bp[j] for j in range(3)], *[sb_.si[j] == bp[j] for j in range(3)],
+            cr.si == cyl.radius.si, sh.si == cyl.height.si,
             *[cn.val[j] == dirn.val[j] for j in range(3)], *[sn.val[j] == dirn.val[j] for j in range(3)]))
+        chk.decided(f'{pre}/callee precondition: radius and height in the unit of base - start[{tag}path{i}]', cr.unit == cb.unit and sh.unit == sb_.unit, detail=f'{cr.unit} {cb.unit} {sh.unit} {sb_.unit}')
         parc = any(d == ('cylinder parallel', True) for d in p.decisions)
         pars = any(d == ('slab parallel', True) for d in p.decisions)
         los = [core.tz(0)] + ([] if parc else [R('C0')]) + ([] if pars else [R('S0')])
         his = ([] if parc else [R('C1')]) + ([] if pars else [R('S1')])
         want = z3.If(z3.And(z3.Bool('HIT_C'), z3.Bool('HIT_S')), maxz(minz(*his) - maxz(*los), 0), 0)
-        chk.prove(f'{pre}/length-of-ray-inside-both[path{i}:cyl-par={parc},slab-par={pars}]', hy, p.value.val == want)
-        chk.decided(f'{pre}/unit-of-length[path{i}]', p.value.unit == start.unit, detail=str(p.value.unit))
-        chk.decided(f'{pre}/frame[path{i}]', not kit.frame_violations(p))
+        chk.prove(f'{pre}/length-of-ray-inside-both[{tag}path{i}:cyl-par={parc},slab-par={pars}]', hy, p.value.val == want)
+        chk.decided(f'{pre}/unit-of-length[{tag}path{i}]', p.value.unit == start.unit, detail=str(p.value.unit))
+        chk.decided(f'{pre}/frame[{tag}path{i}]', not kit.frame_violations(p))
     # set characterisation (pure logic): T >= 0 inside both  <=>  lo <= T <= hi
     T, C0, C1, S0, S1 = (R(n) for n in ('T', 'C0', 'C1', 'S0', 'S1'))
     chk.prove('lemma/beam_intersection/inside-set-is-an-interval', [],
@@ -294,28 +325,32 @@ def beam_intersection(chk, mod):
     chk.prove('lemma/other-end/same-axis-distance', [norm2(A) == 1], dist2_axis(rel, A) == dist2_axis(rel2, nA), timeout=60)
 
 
-def center_volume(chk, mod):
+def _center_volume(chk, mod, tag):
     chk.function(MOD, 'Cylinder.center')
     chk.function(MOD, 'Cylinder.volume')
     paths = chk.explore(lambda: make_cyl(mod).center, base=[], catch=CATCH)
     c = make_cyl(mod)
     for p in paths:
         ok = p.kind == 'return'
-        chk.decided(f'{MOD}:Cylinder.center/no-raise', ok, detail=repr(p.value)[:200])
+        chk.decided(f'{MOD}:Cylinder.center/no-raise{tag}', ok, detail=repr(p.value)[:200])
         if ok:
-            chk.prove(f'{MOD}:Cylinder.center/base+axis*h/2', hyps_of(p),
-                      z3.And(*[p.value.val[j] == c.center_of_base.val[j] + c.symmetry_line.val[j] * c.height.val / 2 for j in range(3)]))
+            chk.prove(f'{MOD}:Cylinder.center/base+axis*h/2{tag}', hyps_of(p),
+                      z3.And(*[p.value.si[j] == c.center_of_base.si[j] + c.symmetry_line.val[j] * c.height.si / 2 for j in range(3)]))
+            chk.decided(f'{MOD}:Cylinder.center/unit-of-the-base{tag}', p.value.unit == c.center_of_base.unit, detail=str(p.value.unit))
     paths = chk.explore(lambda: make_cyl(mod).volume, base=[], catch=CATCH)
     for p in paths:
         ok = p.kind == 'return'
-        chk.decided(f'{MOD}:Cylinder.volume/no-raise', ok, detail=repr(p.value)[:200])
+        chk.decided(f'{MOD}:Cylinder.volume/no-raise{tag}', ok, detail=repr(p.value)[:200])
         if ok:
-            chk.prove(f'{MOD}:Cylinder.volume/pi*r^2*h', hyps_of(p), p.value.val == PI * c.radius.val * c.radius.val * c.height.val)
-            chk.decided(f'{MOD}:Cylinder.volume/unit', p.value.unit == c.radius.unit ** 2 * c.height.unit, detail=str(p.value.unit))
+            chk.prove(f'{MOD}:Cylinder.volume/pi*r^2*h{tag}', hyps_of(p), p.value.si == PI * c.radius.si * c.radius.si * c.height.si)
+            chk.decided(f'{MOD}:Cylinder.volume/unit{tag}', p.value.unit == c.radius.unit ** 2 * c.height.unit, detail=str(p.value.unit))
+
+
+center_volume = in_each_unit(_center_volume)
 
 
 # ---- quadrature ---------------------------------------------------------------------------------------------------------
-def quadrature(chk, mod):
+def _quadrature(chk, mod, tag):
     chk.function(MOD, 'Cylinder.quadrature')
     pre = f'{MOD}:Cylinder.quadrature'
 
@@ -329,47 +364,53 @@ def quadrature(chk, mod):
     qx, qy, qz, qw = (R(n) for n in ('qx', 'qy', 'qz', 'qw'))
     cyl = make_cyl(mod)
     A = cyl.symmetry_line.val
-    rr, hh = cyl.radius.val, cyl.height.val
+    rr, hh = cyl.radius.si, cyl.height.si
     base = [norm2(A) == 1, rr > 0, hh > 0, qx * qx + qy * qy <= 1, qz >= -1, qz <= 1, qw > 0]
     try:
         paths = chk.explore(lambda: make_cyl(mod).quadrature('medium'), base=base, catch=CATCH)
     finally:
         mod.Cylinder._select_quadrature_points = saved
-    chk.canary(f'{pre}/requires', base)
+    chk.canary(f'{pre}/requires{tag}', base)
     un2 = A[0] * A[0] + A[1] * A[1]     # |z x a|^2
     seen = set()
     for i, p in enumerate(paths):
         ok = p.kind == 'return' and len(p.value) == 2
-        chk.decided(f'{pre}/returns-points,weights[path{i}]', ok, detail=repr(p.value)[:300])
+        chk.decided(f'{pre}/returns-points,weights{tag}[path{i}]', ok, detail=repr(p.value)[:300])
         if not ok:
             continue
         pts, wts = p.value
         hy = hyps_of(p, base)
         rot = [e for e in p.log if e[0] == 'rotvec']
-        chk.decided(f'{pre}/unit-of-points[path{i}]', pts.unit == cyl.center_of_base.unit, detail=str(pts.unit))
-        chk.prove(f'{pre}/weights-positive[path{i}]', hy, wts.val > 0)
-        chk.prove(f'{pre}/weight==w*r^2*h/2[path{i}]', hy, wts.val == qw * rr * rr * hh / 2)
-        chk.decided(f'{pre}/frame[path{i}]', not kit.frame_violations(p), detail=str(kit.frame_violations(p)))
-        centre = [cyl.center_of_base.val[j] + A[j] * hh / 2 for j in range(3)]
+        chk.decided(f'{pre}/unit-of-points{tag}[path{i}]', pts.unit == cyl.center_of_base.unit, detail=str(pts.unit))
+        chk.prove(f'{pre}/weights-positive{tag}[path{i}]', hy, wts.val > 0)
+        chk.prove(f'{pre}/weight==w*r^2*h/2{tag}[path{i}]', hy, wts.si == qw * rr * rr * hh / 2)
+        chk.decided(f'{pre}/frame{tag}[path{i}]', not kit.frame_violations(p), detail=str(kit.frame_violations(p)))
+        centre = [cyl.center_of_base.si[j] + A[j] * hh / 2 for j in range(3)]
         local = [qx * rr, qy * rr, qz * hh / 2]
         if not rot:
             seen.add('aligned')
             # no rotation: taken only when the axis is (anti)parallel to z
-            chk.prove(f'{pre}/no-rotation-only-if-axis-along-z[path{i}]', hy, un2 < core.tz(1e-10) * core.tz(1e-10), timeout=60)
-            chk.prove(f'{pre}/aligned:points==centre+local[path{i}]', hy, z3.And(*[pts.val[j] == centre[j] + local[j] for j in range(3)]), timeout=60)
+            chk.prove(f'{pre}/no-rotation-only-if-axis-along-z{tag}[path{i}]', hy, un2 < core.tz(1e-10) * core.tz(1e-10), timeout=60)
+            chk.prove(f'{pre}/aligned:points==centre+local{tag}[path{i}]', hy, z3.And(*[pts.si[j] == centre[j] + local[j] for j in range(3)]), timeout=60)
             continue
         seen.add('rotated')
         _, uv, th, S, C, Rm = rot[0]
         un = core.sqrt_term(un2, nonneg=True)
         # the rotation vector is along z x a, the angle has sin = |z x a| and cos = z.a
-        chk.prove(f'{pre}/rotation-axis-along-z-cross-a[path{i}]', hy + [un > 0],
+        chk.prove(f'{pre}/rotation-axis-along-z-cross-a{tag}[path{i}]', hy + [un > 0],
                   z3.And(uv[0] * un == -A[1] * th, uv[1] * un == A[0] * th, uv[2] == 0), timeout=60)
-        chk.prove(f'{pre}/rotation-angle:sin==|z x a|[path{i}]', hy + [un > 0], S == un, timeout=60)
-        o = chk.prove(f'{pre}/rotation-angle:cos==z.a[path{i}]', hy + [un > 0], C == A[2], timeout=60)
+        chk.prove(f'{pre}/rotation-angle:sin==|z x a|{tag}[path{i}]', hy + [un > 0], S == un, timeout=60)
+        o = chk.prove(f'{pre}/rotation-angle:cos==z.a{tag}[path{i}]', hy + [un > 0], C == A[2], timeout=60)
         o.meta['axis_symbols'] = ['ax_x', 'ax_y', 'ax_z']
-        chk.prove(f'{pre}/rotated:points==centre+R*local[path{i}]', hy,
-                  z3.And(*[pts.val[j] == centre[j] + sum(Rm[j][k] * local[k] for k in range(3)) for j in range(3)]), timeout=60)
-    chk.decided(f'{pre}/both-branches-explored', seen == {'aligned', 'rotated'}, detail=str(seen))
+        chk.prove(f'{pre}/rotated:points==centre+R*local{tag}[path{i}]', hy,
+                  z3.And(*[pts.si[j] == centre[j] + sum(Rm[j][k] * local[k] for k in range(3)) for j in range(3)]), timeout=60)
+    chk.decided(f'{pre}/both-branches-explored{tag}', seen == {'aligned', 'rotated'}, detail=str(seen))
+
+
+def quadrature(chk, mod):
+    in_each_unit(_quadrature)(chk, mod)
+    pre = f'{MOD}:Cylinder.quadrature'
+    qx, qy, qz, qw = (R(n) for n in ('qx', 'qy', 'qz', 'qw'))
     # Rodrigues with k = (z x a)/|z x a|, sin = |z x a|, cos = z.a  maps z to a  (isolated lemma, fresh symbols)
     a_ = [R(f'a{j}') for j in range(3)]
     u_ = R('u')
@@ -457,6 +498,181 @@ def tables(chk):
     chk.decided(f'{MOD}:_cylinder_quadrature_from_product/product-structure', got == want, detail=str(got[:2]))
 
 
+def transmission_map(chk, _):
+    """absorption/base.py against the contracts of the shape (beam_intersection, quadrature, volume) and of the material
+    (attenuation_coefficient): the map is sum_i w_i exp(-mu(lambda) (L_in,i + L_out,i)) / V, with L_in measured from the scatter point
+    against the incident beam and L_out along the unit vector from the point to the detector."""
+    BASE = 'absorption.base'
+    mod = kit.load(BASE)
+    for f in ('_single_scatter_distance_through_sample', '_transmission_fraction', '_integrate_transmission_fraction', 'compute_transmission_map'):
+        chk.function(BASE, f)
+    # -- path length through the sample for one scatter point
+    calls = []
+
+    class Shape(core.MockBase):
+        def beam_intersection(self, point, direction):
+            calls.append((point, direction))
+            return scal(f'L_{len(calls)}', kind='real')
+    mk = lambda: (vecL('p'), vec1('d0'), vec1('d1'))
+    pre = f'{BASE}:_single_scatter_distance_through_sample'
+
+    def run1():
+        calls.clear()
+        return mod._single_scatter_distance_through_sample(Shape(), *mk())
+    paths = chk.explore(run1, base=[], catch=CATCH)
+    ok = len(paths) == 1 and paths[0].kind == 'return' and len(calls) == 2
+    chk.decided(f'{pre}/asks the shape for two path lengths', ok, detail=repr(paths[0].value)[:200] if paths else '')
+    if ok:
+        pt, d0, d1 = mk()
+        hy = hyps_of(paths[0])
+        (p1, dir1), (p2, dir2) = calls
+        eqv = lambda a, b: z3.And(*[x == y for x, y in zip(a, b)])
+        chk.prove(f'{pre}/incoming leg: from the scatter point against the incident beam', hy, z3.And(eqv(p1.si, pt.si), eqv(dir1.val, [-x for x in d0.val])))
+        chk.prove(f'{pre}/outgoing leg: from the scatter point along the scatter direction', hy, z3.And(eqv(p2.si, pt.si), eqv(dir2.val, d1.val)))
+        chk.prove(f'{pre}/sum of the two legs', hy, paths[0].value.si == R('L_1') * R('k_L') + R('L_2') * R('k_L'))
+        chk.decided(f'{pre}/frame', not kit.frame_violations(paths[0]))
+    # -- attenuation along a path
+    pre = f'{BASE}:_transmission_fraction'
+    umu = symbolic_unit('k_mu', NAMED['m'] ** -1)
+
+    class Material(core.MockBase):
+        def attenuation_coefficient(self, wavelength):
+            calls.append(('mu', wavelength))
+            return arg('mu', 'one', dtype=F64, unit=umu, kind='real')
+    mk = lambda: (scal('dist', kind='real'), arg('lam', 'length', dtype=F64))
+
+    def run2():
+        calls.clear()
+        d, lam = mk()
+        return mod._transmission_fraction(Material(), d, lam)
+    paths = chk.explore(run2, base=[], catch=CATCH)
+    ok = len(paths) == 1 and paths[0].kind == 'return' and len(calls) == 1
+    chk.decided(f'{pre}/no-raise, one attenuation coefficient', ok, detail=repr(paths[0].value)[:200] if paths else '')
+    if ok:
+        d, lam = mk()
+        hy = hyps_of(paths[0])
+        chk.prove(f'{pre}/coefficient evaluated at the wavelength', hy, calls[0][1].si == lam.si)
+        chk.prove(f'{pre}/exp(-mu*L)', hy, paths[0].value.val == EXP(-(R('mu') * R('k_mu') * d.si)), timeout=60)
+        chk.decided(f'{pre}/dimensionless', paths[0].value.unit == ONE, detail=str(paths[0].value.unit))
+        chk.decided(f'{pre}/frame', not kit.frame_violations(paths[0]))
+    # -- the integral over the quadrature points (vectorised branch): direction to the detector, one weighted sum per wavelength
+    pre = f'{BASE}:_integrate_transmission_fraction'
+    seen = {}
+
+    class Mat(core.MockBase):
+        def __init__(self, tag):
+            self.tag = tag
+
+        def __matmul__(self, other):
+            return ('matvec', self.tag, other)
+
+    class TF(core.MockBase):
+        def __init__(self, L, w):
+            self.L, self.w = L, w
+            self.dims = ('detector', 'quad')
+            self.values = Mat(('tf', w))
+            self.unit = ONE
+
+    def distance(direction):
+        seen['direction'] = direction
+        return 'LTOT'
+
+    def transmission(L, w):
+        seen.setdefault('tf', []).append((L, w))
+        return TF(L, w)
+
+    class Weights(core.MockBase):
+        values = 'WEIGHT-VALUES'
+        unit = NAMED['m'] ** 3
+
+    class Wavelengths(list):
+        dim = 'wavelength'
+    scm = kit.model()['scipp']
+    made = []
+
+    def array(*, dims, values, unit):
+        made.append((tuple(dims), values, unit))
+        return ('array', len(made) - 1)
+
+    def concat(parts, dim):
+        return ('concat', list(parts), dim)
+    saved = mod.sc
+    mod.sc = kit._Proxy(scm, {'array': array, 'concat': concat})
+    try:
+        def mkp():
+            pts = arg('points', 'length', dtype=VEC, unit=symbolic_unit('k_P', NAMED['m']), dims=('quad',))
+            det = arg('det', 'length', dtype=VEC, unit=uL(), dims=('detector',))
+            pts._sizes['quad'], det._sizes['detector'] = 7, 5       # the element-generic run: lengths only decide the branch
+            return pts, det
+
+        def run3():
+            seen.clear()
+            made.clear()
+            pts, det = mkp()
+            return mod._integrate_transmission_fraction(distance, transmission, pts, Weights(), det, Wavelengths(['w0', 'w1', 'w2']))
+        # more than one point and detector, but not the huge case (that one is run below)
+        paths = chk.explore(run3, base=[], catch=CATCH)
+    finally:
+        mod.sc = saved
+    rets = [p for p in paths if p.kind == 'return']
+    chk.decided(f'{pre}/no-raise', bool(paths) and len(rets) == len(paths), detail='; '.join(repr(p.value)[:100] for p in paths if p.kind != 'return'))
+    for j, p in enumerate(rets):
+        if p.value[0] != 'concat' or 'direction' not in seen:
+            # the huge-array branch with symbolic sizes: decided by the stand-in
+            raise core.Unsupported('vectorised branch not taken with these sizes')
+        pts, det = mkp()
+        dirv = seen['direction']
+        hy = hyps_of(p)
+        diff = [a - b for a, b in zip(det.si, pts.si)]
+        dv = dirv.val
+        chk.prove(f'{pre}/direction to the detector has unit length[path{j}]', hy + [norm2(diff) > 0], norm2(dv) == 1, timeout=60)
+        chk.prove(f'{pre}/direction is parallel to detector - point[path{j}]', hy + [norm2(diff) > 0],
+                  z3.And(dv[0] * diff[1] == dv[1] * diff[0], dv[1] * diff[2] == dv[2] * diff[1], dv[0] * diff[2] == dv[2] * diff[0]), timeout=60)
+        chk.prove(f'{pre}/direction points from the point to the detector[path{j}]', hy + [norm2(diff) > 0], dotz(dv, diff) > 0, timeout=60)
+        chk.decided(f'{pre}/path lengths asked once, transmission per wavelength in order[path{j}]', seen.get('tf') == [('LTOT', 'w0'), ('LTOT', 'w1'), ('LTOT', 'w2')], detail=str(seen.get('tf')))
+        chk.decided(f'{pre}/one weighted sum over the quadrature points per wavelength, concatenated along the wavelength dimension[path{j}]',
+                    p.value == ('concat', [('array', 0), ('array', 1), ('array', 2)], 'wavelength')
+                    and [m[1] for m in made] == [('matvec', ('tf', w), 'WEIGHT-VALUES') for w in ('w0', 'w1', 'w2')]
+                    and all(m[0] == ('detector',) and m[2] == NAMED['m'] ** 3 for m in made), detail=str(made)[:300])
+    # -- the map itself
+    pre = f'{BASE}:compute_transmission_map'
+    rec = {}
+
+    class Shape2(core.MockBase):
+        volume = 'VOLUME'
+
+        def quadrature(self, kind):
+            rec['kind'] = kind
+            return 'POINTS', 'WEIGHTS'
+
+    class Quot(core.MockBase):
+        def __truediv__(self, o):
+            return ('quotient', 'INTEGRAL', o)
+
+    def integrate(dist, trans, points, weights, detector_position, wavelength):
+        rec['args'] = (dist, trans, points, weights, detector_position, wavelength)
+        return Quot()
+
+    class SC(core.MockBase):
+        @staticmethod
+        def DataArray(data=None, coords=None):
+            return ('DataArray', data, dict(coords))
+    saved = (mod._integrate_transmission_fraction, mod.sc)
+    mod._integrate_transmission_fraction, mod.sc = integrate, SC()
+    try:
+        out = mod.compute_transmission_map(Shape2(), 'MATERIAL', 'BEAM', 'WAVELENGTH', 'DETECTORS', quadrature_kind='expensive')
+    finally:
+        mod._integrate_transmission_fraction, mod.sc = saved
+    dist, trans, points, weights, det, wl = rec['args']
+    chk.decided(f'{pre}/integral over the requested quadrature divided by the volume, labelled with detector positions and wavelengths',
+                out == ('DataArray', ('quotient', 'INTEGRAL', 'VOLUME'), {'detector_position': 'DETECTORS', 'wavelength': 'WAVELENGTH'}) and rec['kind'] == 'expensive'
+                and (points, weights, det, wl) == ('POINTS', 'WEIGHTS', 'DETECTORS', 'WAVELENGTH'), detail=str(out)[:200])
+    chk.decided(f'{pre}/path-length function bound to the shape, the quadrature points and the beam direction; attenuation bound to the material',
+                getattr(dist, 'func', None) is mod._single_scatter_distance_through_sample and dist.args == (dist.args[0], 'POINTS', 'BEAM') and isinstance(dist.args[0], Shape2)
+                and not dist.keywords and getattr(trans, 'func', None) is mod._transmission_fraction and trans.args == ('MATERIAL',) and not trans.keywords,
+                detail=f'{dist} {trans}'[:300])
+
+
 def transmission_lemmas(chk):
     """T = sum_i w_i exp(-mu L_i) / V with w_i > 0, sum w_i = V, L_i >= 0, mu >= 0: induction over the number of points."""
     P = 'lemma/transmission'
@@ -493,8 +709,10 @@ def _geometry_failures(n, seed, limit=3):
         ax /= np.linalg.norm(ax)
         base = rng.normal(size=3) * 3
         r, h = 10 ** rng.uniform(-1, 1), 10 ** rng.uniform(-1, 1)
-        c = cylm.Cylinder(symmetry_line=sc.vector(ax), center_of_base=sc.vector(base, unit='m'), radius=sc.scalar(r * 1000, unit='mm'),
-                          height=sc.scalar(h, unit='m'))
+        # radius, height and base each in a length unit of their own (all 27 combinations of m, mm, cm in turn)
+        ru, hu, bu = [(a_, b_, c_) for a_ in ('mm', 'm', 'cm') for b_ in ('m', 'mm', 'cm') for c_ in ('m', 'mm', 'cm')][i % 27]
+        c = cylm.Cylinder(symmetry_line=sc.vector(ax), center_of_base=sc.vector(base, unit='m').to(unit=bu), radius=sc.scalar(r, unit='m').to(unit=ru),
+                          height=sc.scalar(h, unit='m').to(unit=hu))
         kind = ['cheap', 'medium', 'expensive'][i % 3]
         try:
             pts, w = c.quadrature(kind)
@@ -518,8 +736,8 @@ def _geometry_failures(n, seed, limit=3):
         tol2 = 1e-5 if kind == 'cheap' else 0.1
         moments_ok = abs(m1 - h / 2) <= 1e-6 * h and abs(m2 - h * h / 12) <= tol2 * h * h / 12 and abs(mr - r * r / 2) <= 0.05 * r * r / 2
         # asking again (same object, and an equal cylinder) gives the same rule: no state carried from one request to the next
-        again = [c.quadrature(kind), cylm.Cylinder(symmetry_line=sc.vector(ax), center_of_base=sc.vector(base, unit='m'), radius=sc.scalar(r * 1000, unit='mm'),
-                                                   height=sc.scalar(h, unit='m')).quadrature(kind)]
+        again = [c.quadrature(kind), cylm.Cylinder(symmetry_line=sc.vector(ax), center_of_base=sc.vector(base, unit='m').to(unit=bu), radius=sc.scalar(r, unit='m').to(unit=ru),
+                                                   height=sc.scalar(h, unit='m').to(unit=hu)).quadrature(kind)]
         repeat_ok = all(sc.identical(p2, pts) and sc.identical(w2, w) for p2, w2 in again)
         if frac_inside < 1.0 or not (w.values > 0).all() or abs(wsum - vol) > 2e-6 * vol or not moments_ok or not repeat_ok:
             if len(fails) < limit:
@@ -527,6 +745,48 @@ def _geometry_failures(n, seed, limit=3):
                               'sum_w/volume': wsum / vol, 'axial_mean/h': m1 / h, 'axial_variance/(h^2/12)': m2 / (h * h / 12), 'radial_square_mean/(r^2/2)': mr / (r * r / 2),
                               'repeated_request_identical': repeat_ok})
     return fails
+
+
+def _ray_length(p, d, base, ax, r, h):
+    """independent numpy implementation: length of {p + s d, s >= 0} inside the finite cylinder, for arrays of points / unit directions"""
+    import numpy as np
+    q = p - base
+    qa, da = q @ ax, d @ ax
+    qp, dp = q - np.outer(qa, ax), d - np.outer(da, ax)
+    A, B, C = (dp * dp).sum(1), 2 * (qp * dp).sum(1), (qp * qp).sum(1) - r * r
+    with np.errstate(all='ignore'):
+        disc = B * B - 4 * A * C
+        par = A < 1e-300
+        s1 = np.where(par, -np.inf, (-B - np.sqrt(np.maximum(disc, 0))) / (2 * A))
+        s2 = np.where(par, np.inf, (-B + np.sqrt(np.maximum(disc, 0))) / (2 * A))
+        miss = (~par & (disc <= 0)) | (par & (C > 0))
+        inside = (qa >= 0) & (qa <= h)
+        za = np.where(da != 0, (0 - qa) / da, np.where(inside, -np.inf, np.inf))
+        zb = np.where(da != 0, (h - qa) / da, np.where(inside, np.inf, -np.inf))
+        lo = np.maximum(np.maximum(0.0, s1), np.minimum(za, zb))
+        hi = np.minimum(s2, np.maximum(za, zb))
+    return np.where(miss, 0.0, np.maximum(hi - lo, 0.0))
+
+
+def _reference_transmission(base, ax, r, h, beam, det, mu, n=(16, 20, 16)):
+    """volume average of exp(-mu (L_in + L_out)) by a midpoint rule on equal-volume cells in (rho^2, phi, z)  [detector, wavelength]"""
+    import numpy as np
+    e1 = np.cross(ax, [1.0, 0, 0]) if abs(ax[0]) < 0.9 else np.cross(ax, [0, 1.0, 0])
+    e1 /= np.linalg.norm(e1)
+    e2 = np.cross(ax, e1)
+    rho = r * np.sqrt((np.arange(n[0]) + 0.5) / n[0])
+    phi = 2 * np.pi * (np.arange(n[1]) + 0.5) / n[1]
+    z = h * (np.arange(n[2]) + 0.5) / n[2]
+    R_, P_, Z_ = np.meshgrid(rho, phi, z, indexing='ij')
+    pts = base + np.outer((R_ * np.cos(P_)).ravel(), e1) + np.outer((R_ * np.sin(P_)).ravel(), e2) + np.outer(Z_.ravel(), ax)
+    lin = _ray_length(pts, np.tile(-beam, (len(pts), 1)), base, ax, r, h)
+    out = []
+    for dpos in det:
+        dd = dpos - pts
+        dd /= np.linalg.norm(dd, axis=1)[:, None]
+        lout = _ray_length(pts, dd, base, ax, r, h)
+        out.append([np.exp(-m * (lin + lout)).mean() for m in mu])
+    return np.array(out)
 
 
 def _transmission_failures(n, seed, limit=3):
@@ -539,6 +799,12 @@ def _transmission_failures(n, seed, limit=3):
     atoms = real_module('atoms')
     rng = np.random.default_rng(seed)
     fails = []
+
+    def tmap(c, mat, beam, wl, det, kind, unit='m'):
+        t = basem.compute_transmission_map(c, mat, beam_direction=sc.vector(beam), wavelength=wl,
+                                           detector_position=sc.vectors(dims=['detector'], values=det, unit='m').to(unit=unit), quadrature_kind=kind)
+        v = t.data
+        return (v.transpose(['detector', 'wavelength']) if set(v.dims) == {'detector', 'wavelength'} else v).values
     for i in range(n):
         ax = rng.normal(size=3)
         ax /= np.linalg.norm(ax)
@@ -551,27 +817,53 @@ def _transmission_failures(n, seed, limit=3):
         det = det / np.linalg.norm(det, axis=1)[:, None] * 2.0
         wl = sc.array(dims=['wavelength'], values=[0.5, 2.0, 8.0], unit='angstrom')
         sp = atoms.ScatteringParams.for_isotope('V')
-        res = []
-        for dens in (0.0, 0.02, 0.07):
-            mat = matm.Material(scattering_params=sp, effective_sample_number_density=sc.scalar(dens, unit='1/angstrom^3'))
-            t = basem.compute_transmission_map(c, mat, beam_direction=sc.vector(beam), wavelength=wl,
-                                               detector_position=sc.vectors(dims=['detector'], values=det, unit='m'), quadrature_kind='cheap')
-            res.append(t.data.values)
         bad = None
-        if not np.allclose(res[0], 1.0, rtol=0, atol=2e-6):
-            bad = f'T != 1 without attenuation: {res[0].ravel()[:3]}'
-        elif not ((res[1] > 0).all() and (res[1] <= 1 + 2e-6).all() and (res[2] > 0).all()):
-            bad = 'T outside (0, 1]'
-        elif not (res[2] <= res[1] + 1e-12).all():
-            bad = 'T not decreasing with attenuation'
-        # other-end description: same solid
-        c2 = cylm.Cylinder(symmetry_line=sc.vector(-ax), center_of_base=sc.vector(base + h * ax, unit='m'), radius=sc.scalar(r, unit='m'), height=sc.scalar(h, unit='m'))
-        mat = matm.Material(scattering_params=sp, effective_sample_number_density=sc.scalar(0.07, unit='1/angstrom^3'))
-        kw = dict(beam_direction=sc.vector(beam), wavelength=wl, detector_position=sc.vectors(dims=['detector'], values=det, unit='m'), quadrature_kind='medium')
-        t1 = basem.compute_transmission_map(c, mat, **kw).data.values
-        t2 = basem.compute_transmission_map(c2, mat, **kw).data.values
-        if bad is None and not np.allclose(t1, t2, rtol=2e-2):
-            bad = f'other-end description changes T by {np.abs(t1 / t2 - 1).max():.3g}'
+        try:
+            res = []
+            for dens in (0.0, 0.02, 0.07):
+                mat = matm.Material(scattering_params=sp, effective_sample_number_density=sc.scalar(dens, unit='1/angstrom^3'))
+                res.append(tmap(c, mat, beam, wl, det, 'cheap'))
+            if not np.allclose(res[0], 1.0, rtol=0, atol=2e-6):
+                bad = f'T != 1 without attenuation: {res[0].ravel()[:3]}'
+            elif not ((res[1] > 0).all() and (res[1] <= 1 + 2e-6).all() and (res[2] > 0).all()):
+                bad = 'T outside (0, 1]'
+            elif not (res[2] <= res[1] + 1e-12).all():
+                bad = 'T not decreasing with attenuation'
+            # other-end description: same solid
+            c2 = cylm.Cylinder(symmetry_line=sc.vector(-ax), center_of_base=sc.vector(base + h * ax, unit='m'), radius=sc.scalar(r, unit='m'), height=sc.scalar(h, unit='m'))
+            mat = matm.Material(scattering_params=sp, effective_sample_number_density=sc.scalar(0.07, unit='1/angstrom^3'))
+            t1 = tmap(c, mat, beam, wl, det, 'medium')
+            t2 = tmap(c2, mat, beam, wl, det, 'medium')
+            if bad is None and not np.allclose(t1, t2, rtol=2e-2):
+                bad = f'other-end description changes T by {np.abs(t1 / t2 - 1).max():.3g}'
+            # sample, beam and detectors moved together rigidly (random rotation and translation); detectors given in mm
+            q = rng.normal(size=4)
+            q /= np.linalg.norm(q)
+            a_, b_, c_, d_ = q
+            rot = np.array([[a_ * a_ + b_ * b_ - c_ * c_ - d_ * d_, 2 * (b_ * c_ - a_ * d_), 2 * (b_ * d_ + a_ * c_)],
+                            [2 * (b_ * c_ + a_ * d_), a_ * a_ - b_ * b_ + c_ * c_ - d_ * d_, 2 * (c_ * d_ - a_ * b_)],
+                            [2 * (b_ * d_ - a_ * c_), 2 * (c_ * d_ + a_ * b_), a_ * a_ - b_ * b_ - c_ * c_ + d_ * d_]])
+            shift = rng.normal(size=3) * 0.5
+            # (same units as the original: the number of axial points is chosen from height/radius as plain numbers, so re-expressing
+            # one of them changes the rule that is used -- an accuracy matter outside the property, see DESIGN 0.8)
+            c3 = cylm.Cylinder(symmetry_line=sc.vector(rot @ ax), center_of_base=sc.vector(rot @ base + shift, unit='m'), radius=sc.scalar(r, unit='m'),
+                               height=sc.scalar(h, unit='m'))
+            t3 = tmap(c3, mat, rot @ beam, wl, det @ rot.T + shift, 'medium', unit='mm')
+            if bad is None and not np.allclose(t1, t3, rtol=2e-2):
+                bad = f'moving sample, beam and detectors together rigidly changes T by {np.abs(t1 / t3 - 1).max():.3g}'
+            # the value itself: volume average of exp(-mu (L_in + L_out)), L_in against the beam, L_out towards the detector, by an
+            # independent rule with independent ray lengths (the three kinds are within 0.8 % of it on the pinned tree; 3 % allowed)
+            if bad is None:
+                matr = matm.Material(scattering_params=sp, effective_sample_number_density=sc.scalar(0.02, unit='1/angstrom^3'))
+                mu = matr.attenuation_coefficient(wl).to(unit='1/m').values
+                ref = _reference_transmission(base, ax, r, h, beam, det, mu)
+                for kind in ('cheap', 'medium', 'expensive'):
+                    got = tmap(c, matr, beam, wl, det, kind)
+                    if got.shape != ref.shape or not np.allclose(got, ref, rtol=3e-2):
+                        bad = f"'{kind}' map differs from the volume average of exp(-mu (L_in + L_out)) by {np.abs(got / ref - 1).max():.3g}" if got.shape == ref.shape else f'map of shape {got.shape}'
+                        break
+        except Exception as e:  # noqa: BLE001
+            bad = f'compute_transmission_map raised {type(e).__name__}: {e}'[:300]
         if bad and len(fails) < limit:
             fails.append({'id': f'case{i}', 'index': i, 'seed': seed, 'axis': ax.tolist(), 'problem': bad})
     return fails
@@ -584,7 +876,8 @@ def bounded_transmission(chk):
                       n, f1)
     m = 12 if chk.tier == 'quick' else 200
     f2 = _transmission_failures(m, 5 + chk.seed)
-    chk.bounded_check('transmission-map', 'real compute_transmission_map: T in (0,1], T==1 at mu=0, monotone, other-end description within 2%',
+    chk.bounded_check('transmission-map', 'real compute_transmission_map: T in (0,1], T==1 at mu=0, monotone, other-end description and rigid motion within 2%, '
+                      'value within 3% of an independent volume average of exp(-mu (L_in + L_out))',
                       f'{m} random cylinders x 4 detectors x 3 wavelengths', m, f2)
 
 
